@@ -6,7 +6,7 @@ CONSTANTS
   FieldSet <- MCFieldSet
   Admissible <- MCAdmissible
   MaxVariants = 2
-  MaxFields = 2
+  MaxFields = 3
   TraitSetsC12 <- Sets
   Modes = {"auto", "autox", "disabled", "all", "custom"}
   Vals = {0, 1}
